@@ -866,6 +866,7 @@ structure DState where
   demand : Nat := 0                   -- upper bound on the calls at any one boundary so far
   keyed  : Bool := false              -- a cache / coalesce layer is in the stack
   echo   : Bool := false              -- answers are not predicted (any more): see `machine`
+  owedSeen : List (Nat × Nat) := []   -- (layer, tag): reported as unforwarded by a detaching layer (see `owed`)
 
 def parseRVal (ws : List String) : RVal :=
   match ws with
@@ -958,6 +959,25 @@ def callsBound (script : List Out) : Nat := (script.filter (· != .ok)).length +
 def markCalled (reqs : List (Nat × RInfo)) (tag : Nat) : List (Nat × RInfo) :=
   reqs.map fun (c, r) => if r.tag = tag then (c, { r with called := true }) else (c, r)
 
+/-- layers that move the wrapped call into a task of their own, which runs to completion whatever becomes of the caller's
+future (executor: "when the response future is dropped, the spawned task continues to run to completion") -/
+def detaches : LCfg → Bool
+  | .wrap name => name == "executor"
+  | _ => false
+
+/-- the requests (tags) a layer has been called with and has neither forwarded nor answered itself -/
+def unforwarded (s : RSt) (tags : List Nat) : List Nat := tags.filter fun t => decide (0 < s.wait t)
+
+/-- after every operation (the runtime has had its turn: the spawned tasks were polled) a detaching layer has forwarded
+every request it was called with — whether or not the caller still holds, or ever polled, the call future
+(`arrive … gone=1`, `drop`): `not-allowed …` is a line the implementation never prints, i.e. a disagreement
+(reported once per layer and request: `DState.owedSeen`) -/
+def owed (d : DState) : List (Nat × Nat) :=
+  ((List.range d.n).zip (d.cfgs.zip d.resps)).flatMap fun (j, c, r) =>
+    match r with
+    | some s => if detaches c then ((unforwarded s (d.reqs.map (·.2.tag))).eraseDups).map fun t => (j, t) else []
+    | none => []
+
 /-- one word of an operation line: a boundary event or an answer the implementation recorded -/
 def word (acc : DState × List TR.Ev) (w : String) : DState × List TR.Ev :=
   let d := acc.1
@@ -1006,10 +1026,17 @@ def machine : Machine where
         let script := (planOf kv).map (·.out)
         { d with reqs := d.reqs ++ [(c, { tag := tag, script := script, t0 := d.now })],
                  demand := d.demand + callsBound script * d.fanout,
-                 -- two requests with one tag cannot be told apart at the innermost boundary
-                 echo := d.echo || d.reqs.any fun (_, r) => r.tag = tag }
+                 -- two requests with one tag cannot be told apart at the innermost boundary;
+                 -- `gone=1`: the call future is dropped at once, never polled — a dropped caller (see `drop`)
+                 -- `clonepanic=1`: copying the error of this request's inner call unwinds (code of the wrapped service, not
+                 -- of a layer): what becomes of the requests that meet it is not predicted
+                 echo := d.echo || (d.reqs.any fun (_, r) => r.tag = tag) || kv.nat "gone" 0 = 1 || kv.nat "clonepanic" 0 = 1 }
       | _ => d
-    ws.foldl word (d, [])
+    let r := ws.foldl word (d, [])
+    let fresh := (owed r.1).filter fun x => !r.1.owedSeen.contains x
+    ({ r.1 with owedSeen := r.1.owedSeen ++ fresh },
+     r.2 ++ fresh.map fun (j, t) =>
+       TR.Ev.raw s!"not-allowed layer {j} runs the call in a task of its own: it cannot leave request {t} unforwarded (no b{j + 1} call … {t}) once it was called with it, whatever became of the caller")
   now := fun d => d.now
 
 end TR.Stack
